@@ -20,6 +20,9 @@ EXPLICIT_ID = "0f1e2d3c4b5a69788796a5b4c3d2e1f001234567|a0a1a2a3a4a5a6a7a8a9aaab
 def start_args(kind, first_explicit):
     if kind == "plain":
         return [], ""
+    if kind.startswith("bad"):
+        # an override the bridge must refuse (out of range / not a number): the start fails and NOTHING may change
+        return ["iat-mode=" + kind[3:]], ""
     if kind.startswith("iat"):
         return ["iat-mode=" + kind[3]], kind[3]
     if kind == "explicit":
@@ -36,7 +39,7 @@ def histories(ctx):
     hs = []
     if ctx.quick():
         hs = [["plain", "plain"], ["plain", "iat1", "plain"], ["iat2", "plain", "iat0"], ["explicit", "plain", "iat2"],
-              ["explicit+iat1", "explicit", "plain"], ["plain", "iat2", "iat2"]]
+              ["explicit+iat1", "explicit", "plain"], ["plain", "iat2", "iat2"], ["iat1", "bad3", "plain"], ["plain", "bad-1", "plain"]]
         rng = random.Random(ctx.seed)
         for _ in range(2):
             hs.append([rng.choice(kinds) for _ in range(3)])
@@ -48,6 +51,10 @@ def histories(ctx):
             hs.append(["explicit"] + list(h))
             hs.append(["explicit+iat2"] + list(h))
             hs.append(["explicit", "explicit+iat1", h[0]])
+        for bad in ("bad3", "bad-1", "badx", "bad", "bad2147483648", "bad1.0"):
+            for first in ("plain", "iat1", "iat2", "explicit+iat1"):
+                hs.append([first, bad, "plain"])
+                hs.append([first, bad, "iat2", "plain"])
     return hs
 
 
@@ -100,6 +107,9 @@ def explore_history(ctx, binary, hist, hid, traces, stats):
                            "scenario": {"history": hist, "kill_in_start": i, "after_call": k, "variant": variant},
                            "events": ev})
             stats["crash_states"] += 1
+        if kind.startswith("bad") and not res.get("ok") and not res.get("panic"):
+            prefix += [{"event": "Refused", "arg": args[-1], "err": res.get("err", "")[:200]}]
+            continue
         prefix += completed_events(res, ov)
         if not res.get("ok"):
             if i == 1:
